@@ -180,7 +180,7 @@ def run(tier, only=None):
         ml = calrun.build_whole_ir(ctx); calrun.load_module(ml)
         limits = (1, 2) if tier == 'quick' else (1, 2, 3)
         jobs = [{'id': '%s-limit%d' % (c.name, L), 'cfg': c.name, 'limit': L} for c in configs() for L in limits
-                if tier != 'quick' or L == 1 or c.name.startswith('T8-1x1')]
+                if tier != 'quick' or L == 1]
         if only: jobs = [j for j in jobs if only in j['id']]
         results = calrun.run_jobs(worker, jobs, par=max(1, core.NCPU - 1), timeout=900 if tier == 'quick' else 3000, mem_gb=10)
         native = calrun.Native(ctx); viol = []
